@@ -4,7 +4,8 @@
 Translates, from the Python AST of the current source, the straight-line integer methods
   relativedelta._fix, _set_months, __neg__, __abs__, __bool__ (+ the alias __nonzero__), __eq__,
   __ne__, __hash__, __add__ / __sub__ (relativedelta operand), __add__ (timedelta operand), __mul__ (integer factor), module function
-  _sign, and _common.weekday.__eq__ / __hash__
+  _sign, normalized() (integer fields), the keyword path of __init__ before `yday = 0`, and
+  _common.weekday.__init__ / __call__ / __eq__ / __hash__
 into Gallina definitions gen_* over coq/rd/RdGenBase.v (`obj` = one field per instance attribute;
 attribute writes on self thread a state; every method returns `gres`, GErr = AttributeError from
 reading .weekday / .n of None).  coq/rd/RdGenThm.v proves gen_* = the hand model for all inputs.
@@ -45,6 +46,7 @@ class TranslateError(Exception):
 
 # ---------------------------------------------------------------- types
 INT, BOOL, NONE, WD = "int", "bool", "none", "wd"
+RAT, WDARG = "rat", "wdarg"      # an exact rational argument (float / Fraction); the weekday= argument
 
 
 def OPT(t):
@@ -94,6 +96,8 @@ def unify(a, b):
 def coerce(term, t, to):
     if t == to:
         return term
+    if t == WDARG and to == OPT(WD):
+        return "(wdarg_obj %s)" % term      # the weekday argument stored as given (None or a weekday object)
     if is_opt(to):
         if t == NONE:
             return "None"
@@ -116,11 +120,14 @@ class Ctx:
         self.methods = methods        # names of already generated gen_* helpers
         self.hoisted = {}             # id(ast node) -> (tmp, type)
         self.ntmp = 0
+        self.ok, self.bind = "GOk", "gbind"     # result type: gres (AttributeError) or res (ValueError/IndexError)
+        self.relaxed_int = False      # int(x) on an int-or-None x (only inside the no-effect warn guard)
 
     def copy(self):
         c = Ctx(self.objs, self.types, self.methods)
         c.hoisted = self.hoisted
         c.ntmp = self.ntmp
+        c.ok, c.bind, c.relaxed_int = self.ok, self.bind, self.relaxed_int
         return c
 
 
@@ -141,11 +148,18 @@ def eq_call_node(e, cx):
             and cx.objs.get(e.args[0].id) == "rd" and "gen_eq" in cx.methods)
 
 
+def weekdays_subscript(e, cx):
+    """weekdays[weekday] with the module tuple `weekdays` and the weekday= argument"""
+    return (isinstance(e, ast.Subscript) and isinstance(e.value, ast.Name) and e.value.id == "weekdays"
+            and "weekdays" in cx.methods and isinstance(e.slice, ast.Name) and cx.types.get(e.slice.id) == WDARG
+            and cx.bind == "bind")
+
+
 def find_derefs(e, cx, out, conditional=False):
     """collect weekday dereferences (and calls of translated methods) in evaluation positions that
     are always evaluated"""
     d = deref_node(e, cx)
-    if d is None and eq_call_node(e, cx):
+    if d is None and (eq_call_node(e, cx) or weekdays_subscript(e, cx)):
         d = True
     if d is not None:
         if conditional:
@@ -184,6 +198,12 @@ def with_hoists(exprs, cx, body):
             cx.hoisted[id(n)] = (tmp, BOOL)
             pre.append("gbind (gen_eq v_%s v_%s) (fun %s =>\n" % (n.func.value.id, n.args[0].id, tmp))
             continue
+        if weekdays_subscript(n, cx):
+            cx.ntmp += 1
+            tmp = "t%d_wd" % cx.ntmp
+            cx.hoisted[id(n)] = (tmp, WD)
+            pre.append("bind (weekdays_getitem (wdarg_int v_%s)) (fun %s =>\n" % (n.slice.id, tmp))
+            continue
         obj, attr = deref_node(n, cx)
         cx.ntmp += 1
         tmp = "t%d_%s" % (cx.ntmp, attr)
@@ -211,10 +231,14 @@ def val(e, cx):
             return "false", BOOL
         if isinstance(e.value, int):
             return lit(e.value), INT
+        if isinstance(e.value, float) and e.value.is_integer() and abs(e.value) < 2 ** 53:
+            return lit(int(e.value)), INT      # e.g. 1e6: exact in the integer reading of normalized()
         raise TranslateError("unsupported constant %r" % (e.value,))
     if isinstance(e, ast.Name):
         if e.id in cx.types:
             return "v_" + e.id, cx.types[e.id]
+        if cx.objs.get(e.id) == "wdobj":
+            return "v_" + e.id, WD
         raise TranslateError("unknown name %s" % e.id)
     if isinstance(e, ast.Attribute) and isinstance(e.value, ast.Name) and e.value.id in cx.objs:
         kind = cx.objs[e.value.id]
@@ -265,12 +289,23 @@ def val(e, cx):
         if len(vs) < 2:
             raise TranslateError("tuple with fewer than two elements")
         return "(" + ", ".join(a for a, _ in vs) + ")", TUP([t for _, t in vs])
+    if (isinstance(e, ast.Call) and isinstance(e.func, ast.Name) and e.func.id == "round" and not e.keywords
+            and len(e.args) in (1, 2)):
+        a, ta = val(e.args[0], cx)
+        if ta == INT and (len(e.args) == 1 or (isinstance(e.args[1], ast.Constant) and isinstance(e.args[1].value, int)
+                                                 and not isinstance(e.args[1].value, bool) and e.args[1].value >= 0)):
+            return a, INT                     # round(i) and round(i, k >= 0) of an integer are that integer
+        raise TranslateError("unsupported round(...)")
     if isinstance(e, ast.Call) and isinstance(e.func, ast.Name) and not e.keywords and len(e.args) == 1:
         a, ta = val(e.args[0], cx)
         if e.func.id == "abs" and ta == INT:
             return "(Z.abs %s)" % a, INT
         if e.func.id in ("int", "float") and ta == INT:
             return a, INT
+        if e.func.id == "int" and ta == RAT:
+            return "(rat_int %s)" % a, INT
+        if e.func.id == "int" and ta == OPT(INT) and cx.relaxed_int:
+            return a, OPT(INT)
         if e.func.id == "_sign" and ta == INT and "gen_sign" in cx.methods:
             return "(gen_sign %s)" % a, INT
     raise TranslateError("unsupported expression: " + ast.dump(e)[:160])
@@ -298,13 +333,17 @@ def cond(e, cx):
         for op, right in zip(e.ops, e.comparators):
             (a, ta), (b, tb) = val(left, cx), val(right, cx)
             if isinstance(op, (ast.Is, ast.IsNot)):
-                if tb != NONE or not is_opt(ta):
-                    raise TranslateError("`is` is supported only as `<optional> is [not] None`")
-                p = "(truth_opt %s)" % a
+                if tb != NONE or not (is_opt(ta) or ta in (INT, RAT)):
+                    raise TranslateError("`is` is supported only as `<value> is [not] None`")
+                p = "(truth_opt %s)" % a if is_opt(ta) else "true"
                 parts.append(p if isinstance(op, ast.IsNot) else "(negb %s)" % p)
             elif isinstance(op, (ast.Eq, ast.NotEq)):
                 if ta == INT and tb == INT:
                     p = "(%s =? %s)" % (a, b)
+                elif ta == RAT and tb == INT:
+                    p = "(negb (rat_ne_int %s %s))" % (a, b)
+                elif ta == INT and tb == RAT:
+                    p = "(negb (rat_ne_int %s %s))" % (b, a)
                 elif {ta, tb} <= {INT, OPT(INT), NONE}:
                     p = "(ozeqb %s %s)" % (coerce(a, ta, OPT(INT)), coerce(b, tb, OPT(INT)))
                 else:
@@ -324,13 +363,38 @@ def cond(e, cx):
         return "(" + op.join(cond(v, cx) for v in e.values) + ")"
     if isinstance(e, ast.UnaryOp) and isinstance(e.op, ast.Not):
         return "(negb %s)" % cond(e.operand, cx)
+    if (isinstance(e, ast.Call) and isinstance(e.func, ast.Name) and e.func.id == "any" and len(e.args) == 1
+            and not e.keywords and isinstance(e.args[0], ast.GeneratorExp)):
+        g = e.args[0]
+        if (len(g.generators) != 1 or g.generators[0].ifs or g.generators[0].is_async
+                or not isinstance(g.generators[0].target, ast.Name) or not isinstance(g.generators[0].iter, ast.Tuple)
+                or not all(isinstance(x, ast.Name) and x.id in cx.types for x in g.generators[0].iter.elts)):
+            raise TranslateError("unsupported any(...) form")
+        var = g.generators[0].target.id
+        parts = []
+        for x in g.generators[0].iter.elts:       # unrolled over the literal tuple of names
+            c2 = cx.copy()
+            c2.types[var] = cx.types[x.id]
+            parts.append("(let v_%s := v_%s in %s)" % (var, x.id, cond(g.elt, c2)))
+        return "(" + " || ".join(parts) + ")" if parts else "false"
+    if (isinstance(e, ast.Call) and isinstance(e.func, ast.Name) and e.func.id == "isinstance" and len(e.args) == 2
+            and not e.keywords and isinstance(e.args[0], ast.Name) and cx.types.get(e.args[0].id) == WDARG
+            and isinstance(e.args[1], ast.Name) and e.args[1].id == "integer_types" and "integer_types" in cx.methods):
+        return "(wdarg_is_int v_%s)" % e.args[0].id
     a, t = val(e, cx)
     return truth(a, t)
 
 
 # ---------------------------------------------------------------- statements
 def contains_return(stmts):
-    return any(isinstance(n, ast.Return) for s in stmts for n in ast.walk(s))
+    return any(isinstance(n, (ast.Return, ast.Raise)) for s in stmts for n in ast.walk(s))
+
+
+def is_warn_guard(s):
+    """if <test>: warn(...)   -- no effect on the object"""
+    return (isinstance(s, ast.If) and not s.orelse and len(s.body) == 1 and isinstance(s.body[0], ast.Expr)
+            and isinstance(s.body[0].value, ast.Call) and isinstance(s.body[0].value.func, ast.Name)
+            and s.body[0].value.func.id == "warn")
 
 
 def assigned(stmts):
@@ -409,15 +473,22 @@ def ret_expr(e, cx):
             else:
                 args.append("0" if RD_FIELDS[f] == INT else "None")
         return pre, "gen_init (mkobj %s)" % " ".join(args), suf, "obj"
+    # self.__class__(weekday, n) inside class weekday
+    if (isinstance(e, ast.Call) and isinstance(e.func, ast.Attribute) and e.func.attr == "__class__"
+            and isinstance(e.func.value, ast.Name) and e.func.value.id == "self" and cx.objs.get("self") == "wdobj"):
+        if len(e.args) != 2 or e.keywords or "gen_wd_init" not in cx.methods:
+            raise TranslateError("unsupported weekday constructor call")
+        (a, ta), (b, tb) = val(e.args[0], cx), val(e.args[1], cx)
+        return "", "gen_wd_init wd_blank %s %s" % (coerce(a, ta, INT), coerce(b, tb, OPT(INT))), "", WD
     # hash((...))
     if (isinstance(e, ast.Call) and isinstance(e.func, ast.Name) and e.func.id == "hash"
             and len(e.args) == 1 and not e.keywords and isinstance(e.args[0], ast.Tuple)):
         pre, suf = with_hoists([e.args[0]], cx, None)
         a, t = val(e.args[0], cx)
-        return pre, "GOk %s" % a, suf, t
+        return pre, "%s %s" % (cx.ok, a), suf, t
     pre, suf = with_hoists([e], cx, None)
     a, t = val(e, cx)
-    return pre, "GOk %s" % a, suf, t
+    return pre, "%s %s" % (cx.ok, a), suf, t
 
 
 class Method:
@@ -443,6 +514,16 @@ def block(stmts, cx, k, m, ind=1):
         m.ret_types.append(t)
         return pad + pre + pad + term + suf
     if is_not_isinstance_guard(s):
+        return nxt(cx)
+    if isinstance(s, ast.Raise):
+        exc = s.exc.func if isinstance(s.exc, ast.Call) else s.exc
+        if rest or cx.bind != "bind" or not (isinstance(exc, ast.Name) and exc.id == "ValueError") or s.cause:
+            raise TranslateError("unsupported raise")
+        return pad + "Err EValue"
+    if is_warn_guard(s):
+        c2 = cx.copy()
+        c2.relaxed_int = True
+        cond(s.test, c2)          # must be a translatable, effect-free test; its value does not matter
         return nxt(cx)
     if isinstance(s, ast.Assign):
         if len(s.targets) != 1:
@@ -536,14 +617,14 @@ def block(stmts, cx, k, m, ind=1):
         block(s.body, cx.copy(), probe("t"), dummy, 0)
         block(s.orelse, cx.copy(), probe("e"), dummy, 0)
         tys = {v: (seen["t"][v] if seen["t"][v] == "obj" else unify(seen["t"][v], seen["e"][v])) for v in keep}
-        monadic = any(deref_node(n, cx) is not None or eq_call_node(n, cx)
+        monadic = any(deref_node(n, cx) is not None or eq_call_node(n, cx) or weekdays_subscript(n, cx)
                       or (isinstance(n, ast.Expr) and isinstance(n.value, ast.Call))
                       for st in [s] for n in ast.walk(st))
 
         def tup(c2):
             parts = [("v_" + v) if tys[v] == "obj" else coerce("v_" + v, c2.types[v], tys[v]) for v in keep]
             t = parts[0] if len(parts) == 1 else "(" + ", ".join(parts) + ")"
-            return ("GOk " + t) if monadic else t
+            return (cx.ok + " " + t) if monadic else t
         then_txt = block(s.body, cx.copy(), tup, m, ind + 2)
         else_txt = block(s.orelse, cx.copy(), tup, m, ind + 2)
         pat = "v_" + keep[0] if len(keep) == 1 else "'(" + ", ".join("v_" + v for v in keep) + ")"
@@ -552,7 +633,7 @@ def block(stmts, cx, k, m, ind=1):
             if tys[v] != "obj":
                 c2.types[v] = tys[v]
         if monadic:
-            return (pad + pre + pad + "gbind (if %s then (\n" % c + then_txt + ")\n" + pad + "  else (\n"
+            return (pad + pre + pad + cx.bind + " (if %s then (\n" % c + then_txt + ")\n" + pad + "  else (\n"
                     + else_txt + ")) (fun %s =>\n" % pat + nxt(c2) + ")" + suf)
         return (pad + pre + pad + "blet (if %s then (\n" % c + then_txt + ")\n" + pad + "  else (\n"
                 + else_txt + ")) (fun %s =>\n" % pat + nxt(c2) + ")" + suf)
@@ -560,12 +641,17 @@ def block(stmts, cx, k, m, ind=1):
 
 
 def field_set(tgt, term, t, cx):
+    if (isinstance(tgt, ast.Attribute) and isinstance(tgt.value, ast.Name) and tgt.value.id == "self"
+            and cx.objs.get("self") == "wdobj" and tgt.attr in WD_FIELDS):
+        v = coerce(term, t, WD_FIELDS[tgt.attr])
+        return "let v_self := %s in\n" % ("(%s, snd v_self)" % v if tgt.attr == "weekday" else "(fst v_self, %s)" % v)
     if not (isinstance(tgt, ast.Attribute) and isinstance(tgt.value, ast.Name) and tgt.value.id == "self"
             and cx.objs.get("self") == "rd"):
         raise TranslateError("unsupported assignment target")
-    if tgt.attr not in RD_FIELDS or RD_FIELDS[tgt.attr] != INT:
+    if tgt.attr not in RD_FIELDS:
         raise TranslateError("assignment to attribute %s is not supported" % tgt.attr)
-    return "let v_self := set_%s v_self %s in\n" % (coqf(tgt.attr), coerce(term, t, INT))
+    ft = RD_FIELDS[tgt.attr]
+    return "let v_self := %s_%s v_self %s in\n" % ("set" if ft == INT else "put", coqf(tgt.attr), coerce(term, t, ft))
 
 
 def try_stmt(s, rest, cx, k, m, ind):
@@ -612,7 +698,7 @@ def do_method(fn, params, objs, types, methods, kind, coqname, coqparams, rettyp
     if kind == "mutator":
         if contains_return(fn.body):
             raise TranslateError("return inside a mutator")
-        k = lambda c: "GOk v_self"
+        k = lambda c: c.ok + " v_self"
     else:
         def k(c):
             raise TranslateError("control reaches the end of the function without return")
@@ -624,13 +710,12 @@ def do_method(fn, params, objs, types, methods, kind, coqname, coqparams, rettyp
 
 
 def check_init_shape(rd):
-    """gen_init models the keyword path of __init__ as the operators use it (integer relative
-    values, weekday object or None, no weeks / yearday / nlyearday / dt1 / dt2) by "assign every
-    field, then _fix".  This checks, fail-closed, that the source still has that shape:
-    defaults, one canonical assignment per field, nothing else writes the fields except under
-    tests of nlyearday / yearday / yday (which start out None / 0), last statement self._fix().
-    The two `if any(...)` guards (ValueError for non-integer years/months, DeprecationWarning) are
-    not translated: they do not fire on integers -- tied by the correspondence only."""
+    """Frame of __init__ that the composition in coq/rd/RdGenInitThm.v relies on: the defaults of the
+    keyword arguments (the operators' constructor calls omit weeks / yearday / nlyearday / dt1 / dt2),
+    `if dt1 and dt2: <two-date branch> else: <keyword branch>`, then `self._fix()` as last statement.
+    The keyword branch itself is TRANSLATED (gen_init_head here, gen_init_yearday by gen_rd_add.py);
+    that gen_init (= _fix on the passed fields) is what the whole path computes for an operator's
+    call is a theorem (C16_gen_init_is_kw), no longer an assumption."""
     fn = [n for n in rd.body if isinstance(n, ast.FunctionDef) and n.name == "__init__"]
     if len(fn) != 1:
         raise TranslateError("__init__ not found")
@@ -653,46 +738,6 @@ def check_init_shape(rd):
         raise TranslateError("__init__: first test is not `dt1 and dt2`")
     if ast.dump(body[1]) != ast.dump(ast.parse("self._fix()").body[0]):
         raise TranslateError("__init__: last statement is not self._fix()")
-    kw = body[0].orelse
-    want = {f: f for f in REL + ABS}
-    want["years"], want["months"], want["days"] = "int(years)", "int(months)", "days + weeks * 7"
-    seen = set()
-    for st in kw:
-        if isinstance(st, ast.Assign) and len(st.targets) == 1 and isinstance(st.targets[0], ast.Attribute):
-            tg = st.targets[0]
-            if not (isinstance(tg.value, ast.Name) and tg.value.id == "self" and tg.attr in want and tg.attr not in seen):
-                raise TranslateError("__init__: unexpected assignment to self.%s" % tg.attr)
-            if ast.dump(st.value) != ast.dump(ast.parse(want[tg.attr], mode="eval").body):
-                raise TranslateError("__init__: self.%s is not assigned %s" % (tg.attr, want[tg.attr]))
-            seen.add(tg.attr)
-        elif (isinstance(st, ast.If) and ast.dump(st.test) == ast.dump(
-                ast.parse("isinstance(weekday, integer_types)", mode="eval").body)):
-            if not (len(st.orelse) == 1 and ast.dump(st.orelse[0]) == ast.dump(
-                    ast.parse("self.weekday = weekday").body[0])) or "weekday" in seen:
-                raise TranslateError("__init__: weekday object is not stored as given")
-            seen.add("weekday")
-        elif isinstance(st, ast.Assign) and ast.dump(st) == ast.dump(ast.parse("yday = 0").body[0]):
-            seen.add("yday=0")
-        elif isinstance(st, ast.If) and isinstance(st.test, ast.Name) and st.test.id in ("nlyearday", "yday"):
-            if st.test.id == "nlyearday":
-                # `if nlyearday: ... elif yearday: ...`: the elif must test yearday
-                for e in st.orelse:
-                    if not (isinstance(e, ast.If) and isinstance(e.test, ast.Name) and e.test.id == "yearday"
-                            and not e.orelse):
-                        raise TranslateError("__init__: unexpected else branch of `if nlyearday`")
-            if "yday=0" not in seen:
-                raise TranslateError("__init__: yday is not initialised to 0 before use")
-        elif isinstance(st, ast.If):
-            # guards without effect on the fields: only raise / warn(...) inside
-            for n in ast.walk(st):
-                if isinstance(n, (ast.Assign, ast.AugAssign, ast.Delete, ast.Return)) or (
-                        isinstance(n, ast.Call) and isinstance(n.func, ast.Attribute)):
-                    raise TranslateError("__init__: unexpected statement in a guard of the keyword path")
-        else:
-            raise TranslateError("__init__: unexpected statement in the keyword path: " + ast.dump(st)[:80])
-    missing = [f for f in REL + ABS + ["weekday"] if f not in seen]
-    if missing:
-        raise TranslateError("__init__: no canonical assignment for %s" % ", ".join(missing))
 
 
 HASH_T = TUP([OPT(TUP([INT, INT]))] + [INT] * 8 + [OPT(INT)] * 7)
@@ -705,7 +750,7 @@ def translate(rd_src, common_src):
     out = ["(* GENERATED by harness/gen_rd_methods.py from /repo/src/dateutil/relativedelta.py and _common.py"
            " -- do not edit *)",
            "From Coq Require Import ZArith Bool.",
-           "From V Require Import base.Cal rd.RdBase rd.RdGenBase.",
+           "From V Require Import base.Cal rd.RdBase rd.RdModel rd.RdGenBase.",
            "Open Scope Z_scope.", ""]
     errors = []
     methods = set()
@@ -759,6 +804,43 @@ def translate(rd_src, common_src):
                       "objects, no weeks, yearday, dt1, dt2): assign the fields, then _fix *)\n"
                       "Definition gen_init (args : obj) : gres obj := gen_fix args.\n")
     attempt("gen_init", fix)
+    # the keyword path of __init__ up to (excluding) `yday = 0`: non-integer check, field assignments with
+    # weeks, weekday argument forms.  (The yearday conversion that follows is translated by
+    # harness/gen_rd_add.py -> gen_init_yearday; coq/rd/RdGenInitThm.v composes the three parts.)
+    def init_head():
+        if "gen_init" not in methods:
+            raise TranslateError("shape of __init__ not accepted")
+        want = ast.dump(ast.parse("MO, TU, WE, TH, FR, SA, SU = weekdays = tuple(weekday(x) for x in range(7))").body[0])
+        if sum(1 for n in rd_tree.body if ast.dump(n) == want) != 1 or any(
+                isinstance(t, ast.Name) and t.id == "weekdays" and ast.dump(n) != want
+                for n in ast.walk(rd_tree) if isinstance(n, (ast.Assign, ast.AugAssign))
+                for t in ast.walk(n) if isinstance(t, ast.Name) and isinstance(t.ctx, ast.Store)):
+            raise TranslateError("module tuple `weekdays` is not tuple(weekday(x) for x in range(7))")
+        if not any(isinstance(n, ast.ImportFrom) and n.module == "six" and any(
+                a.name == "integer_types" and a.asname is None for a in n.names) for n in rd_tree.body):
+            raise TranslateError("integer_types is not imported from six")
+        wi = find_def(wdc.body, "__init__") if False else [n for n in wdc.body if isinstance(n, ast.FunctionDef) and n.name == "__init__"]
+        if len(wi) != 1:
+            raise TranslateError("weekday.__init__ not found")
+        ms = set(methods) | {"weekdays", "integer_types"}
+        fn = [n for n in rd.body if isinstance(n, ast.FunctionDef) and n.name == "__init__"][0]
+        kw = [s for s in fn.body if not (isinstance(s, ast.Expr) and isinstance(s.value, ast.Constant))][0].orelse
+        idx = [i for i, st in enumerate(kw) if ast.dump(st) == ast.dump(ast.parse("yday = 0").body[0])]
+        if len(idx) != 1:
+            raise TranslateError("`yday = 0` not found exactly once in the keyword branch")
+        head = kw[:idx[0]]
+        types = {"years": RAT, "months": RAT, "weekday": WDARG}
+        types.update({f: INT for f in ["days", "leapdays", "weeks", "hours", "minutes", "seconds", "microseconds"]})
+        types.update({f: OPT(INT) for f in ABS})
+        cx = Ctx({"self": "rd"}, types, ms)
+        cx.ok, cx.bind = "Ok", "bind"
+        m = Method()
+        body = block(list(head), cx, lambda c: "Ok v_self", m, 1)
+        pre = "  let v_self := obj_blank in\n" + "".join(
+            "  let v_%s := ia_%s v_args in\n" % (f, f) for f in ["years", "months", "days", "leapdays", "weeks", "hours",
+                                                               "minutes", "seconds", "microseconds"] + ABS + ["weekday"])
+        return "Definition gen_init_head (v_args : iargs) : res obj :=\n%s%s.\n" % (pre, body)
+    attempt("gen_init_head", init_head)
     for py, coq in (("__neg__", "gen_neg"), ("__abs__", "gen_abs")):
         attempt(coq, lambda py=py, coq=coq: do_method(find_def(rd.body, py), ["self"], {"self": "rd"}, {}, methods,
                                                       "function", coq, S, ("obj", "obj")))
@@ -803,6 +885,8 @@ def translate(rd_src, common_src):
     attempt("gen_add_td", add_td)
     attempt("gen_sub", lambda: do_method(find_def(rd.body, "__sub__"), ["self", "other"],
             {"self": "rd", "other": "rd"}, {}, methods, "function", "gen_sub", SO, ("obj", "obj")))
+    attempt("gen_normalized", lambda: do_method(find_def(rd.body, "normalized"), ["self"], {"self": "rd"}, {},
+            methods, "function", "gen_normalized", S, ("obj", "obj")))
     attempt("gen_mul", lambda: do_method(find_def(rd.body, "__mul__"), ["self", "other"], {"self": "rd"},
             {"other": INT}, methods, "function", "gen_mul", "(v_self : obj) (v_other : Z)", ("obj", "obj")))
 
@@ -813,6 +897,22 @@ def translate(rd_src, common_src):
             raise TranslateError("__rmul__ is not the alias of __mul__")
         return "(* __rmul__ = __mul__ *)\n"
     attempt("gen_rmul", rmul)
+    def wd_init():
+        fs = [n for n in wdc.body if isinstance(n, ast.FunctionDef) and n.name == "__init__"]
+        if len(fs) != 1:
+            raise TranslateError("weekday.__init__ not found")
+        fn = fs[0]
+        d = fn.args.defaults
+        if (fn.decorator_list or fn.args.vararg or fn.args.kwarg or fn.args.kwonlyargs or len(d) != 1
+                or not (isinstance(d[0], ast.Constant) and d[0].value is None)):
+            raise TranslateError("unexpected signature of weekday.__init__ (expected (self, weekday, n=None))")
+        fake = ast.FunctionDef(name="__init__", args=ast.arguments(posonlyargs=[], args=fn.args.args, vararg=None,
+                               kwonlyargs=[], kw_defaults=[], kwarg=None, defaults=[]), body=fn.body, decorator_list=[])
+        return do_method(fake, ["self", "weekday", "n"], {"self": "wdobj"}, {"weekday": INT, "n": OPT(INT)}, methods,
+                         "mutator", "gen_wd_init", "(v_self : wdv) (v_weekday : Z) (v_n : option Z)", (WD, "wdv"))
+    attempt("gen_wd_init", wd_init)
+    attempt("gen_wd_call", lambda: do_method(find_def(wdc.body, "__call__"), ["self", "n"], {"self": "wdobj"},
+            {"n": OPT(INT)}, methods, "function", "gen_wd_call", "(v_self : wdv) (v_n : option Z)", (WD, "wdv")))
     W = "(v_self v_other : wdv)"
     attempt("gen_wd_eq", lambda: do_method(find_def(wdc.body, "__eq__"), ["self", "other"],
             {"self": "wdobj", "other": "wdobj"}, {}, methods, "function", "gen_wd_eq", W, (BOOL, "bool")))
